@@ -25,10 +25,10 @@ T = {
  "C12": ("reference model (great-arc geometry on S^3) + history checkers over all interior NaN runs and all sign-flip patterns",
          "Runtime monitoring: both slerp copies are run on endpoint pairs stratified around every branch (shortest-path flip, LERP threshold 0.9995 swept and bracketed, orthogonal, identical) and compared with the harness' great-arc interpolation (unit, end points, plane, constant speed, monotone, sign invariance); slerp_nan is run on trajectories with every interior NaN run for N<=10 and sampled multi-run patterns, remove_jumps/q_correct on every sign pattern for N<=8 and sampled ones to N=60.",
          "NumPy; reference slerp in the check module; LERP branch allowed Omega^3/20", "5/C12"),
- "C18": ("closed-form + invariance + triangle monitors on the seven metric functions (single and N-row)",
+ "C18": ("closed-form + invariance + triangle + mixed-type symmetry monitors on the seven metric functions (single and N-row), traced-memory monitor (tracemalloc) on a long N-row call",
          "Runtime monitoring: pairs at a generator-known relative angle t (1e-4..pi incl. exactly pi and pi/2, bands around removed shortcuts) are evaluated as-is, swapped, negated, left- and right-multiplied and as batches through the real metric functions and compared with the closed forms; random, close and collinear triples exercise the triangle inequality.",
          "NumPy; rotations built by vt/ref/quat.py; arccos-based metrics granted eps/t (and sqrt(eps) next to pi) accuracy", "5/C18"),
- "C07": ("differential monitor: N-row entry point vs the single-item entry point of the real code on every row",
+ "C07": ("differential monitor: N-row entry point vs the single-item entry point of the real code on every row (derived objects, methods in turn on one object, recordings with an unusable row), traced-memory monitor (tracemalloc) on a long array",
          "Runtime monitoring: for 50 operation pairs (QuaternionArray vs Quaternion incl. both storage orders and 7 from_DCM methods, N-by-3-by-3 hughes/chiaverini, q2R, rpy2q, am2angles, ned2enu, five metrics, every single-frame estimator x method x representation x frame) generated rows (half-turns, near-identity, near-pi, coordinate-plane axes, magnitudes over 5 decades) are run through both copies and compared row by row without sign freedom; one-row batch and one-sample constructor calls are compared with estimate() using the same options.",
          "NumPy; both sides are library code; closed-form from_DCM rows above pi-1e-6 and metric pairs below 1e-4 rad are outside C02/C18's domains and not paired", "5/C07"),
  "C04": ("reference-model monitor: generated true attitude -> noise-free measurements from the estimator's own references -> real estimator -> direction table oracle",
@@ -37,8 +37,8 @@ T = {
  "C05": ("bounded-progress monitor on recorded error trajectories of the real filters (per-configuration step bound N and tolerance from gain/geometry)",
          "Runtime monitoring: each recursive filter configuration (Madgwick, Mahony, EKF NED/ENU, UKF, AQUA incl. adaptive, ROLEQ NED/ENU, FKF, Complementary; IMU and MARG; default and non-default gains) is started 0.01-175 deg away from a random true attitude and fed exact measurements plus gyro noise; the error trajectory (geodesic angle or tilt) must be below tol at sample N, stay below it to 1.5 N and never end above the initial error. 'Eventually' is restated as this bounded progress; verdicts are in samples, never wall-clock.",
          "NumPy; frozen (N, tol) table with x2 / x5 margins over the calibrated envelope; direction table of vt/filt.py; UKF non-convergence is a known finding", "5/C05"),
- "C06": ("history checkers (batch vs stream, repeat, fresh process, per-instance sub-histories under random interleavings) + shared-state snapshot monitor",
-         "Runtime monitoring: for every recursive filter and architecture (16 streaming configurations incl. EKF with magnetometer and UKF, default and explicit parameters) a random history is run through the constructor and through update() sample by sample from the same initial attitude (equal to 1e-13), each repeated (bit-identical), some in a fresh interpreter with another hash seed; 2-4 instances of same/different classes are driven under random schedules and each instance's sub-history must be bit-identical to its isolated run; module globals, class attributes, function defaults and the global NumPy RNG are snapshotted around every case.",
+ "C06": ("history checkers (batch vs stream, repeat, fresh process, per-instance sub-histories under random interleavings and under concurrent threads with injected yields) + shared-state snapshot monitor",
+         "Runtime monitoring: for every recursive filter and architecture (16 streaming configurations incl. EKF with magnetometer and UKF, default and explicit parameters) a random history is run through the constructor and through update() sample by sample from the same initial attitude (equal to 1e-13), each repeated (bit-identical), some in a fresh interpreter with another hash seed; 2-4 instances of same/different classes are driven under random schedules and each instance's sub-history must be bit-identical to its isolated run; module globals, class attributes, function defaults and the global NumPy RNG are snapshotted around every case; 2-3 instances of each class run in concurrent threads (sys.settrace yield injection inside the library, 1 us switch interval) and must reproduce their isolated runs; a streamed recording must come back byte-identical.",
          "NumPy; histories up to 60 samples; the only permitted shared-state write is RNG consumption by OLEQ/ROLEQ's random start", "5/C06"),
  "C08": ("reference model (exponential map) + order-of-accuracy monitor + cross-filter dead-reckoning monitor + re-integration history check",
          "Runtime monitoring: constant rates (1e-2..10 rad/s, dt 1e-3..5e-2, up to 300 steps) through AngularRate.update and the batch constructor vs q0*exp(w n dt/2); series orders 0-6 vs the Taylor-remainder bound and monotone improvement; one dead-reckoning step with a null accelerometer through Madgwick/Mahony/AQUA updateIMU+updateMARG, EKF.f, ROLEQ.attitude_propagation, AngularRate order 1 vs the normalised first-order step in each filter's convention; rate histories recovered by angular_velocities() and re-integrated.",
@@ -52,7 +52,7 @@ T = {
  "C14": ("reference-model monitor: independent degree-12 Schmidt spherical-harmonic synthesis of the shipped .COF files",
          "Runtime monitoring: (latitude, longitude, height, date) points stratified over the equator, both poles and their neighbourhood, +-55 deg, longitudes 0/+-180, heights -1..850 km and the 0.1-year grid 2015.0-2030.0 with both sides of each epoch boundary are evaluated on a long-lived object, a fresh object and through the constructor, and compared (1e-6 nT) with a synthesis that shares only the coefficient files with the library (Legendre derivatives via numpy.polynomial, analytic d/dphi', P/cos cancelled at the poles), which also decides which file must be used.",
          "NumPy; vt/ref/wmm.py (validated against an 80-bit evaluation: 2e-11 nT); 5e-3 nT strictly between 89 deg and a pole", "5/C14"),
- "C15": ("query-history checker against a pure-function sequential specification + element-consistency monitors",
+ "C15": ("query-history checker against a pure-function sequential specification + element-consistency monitors + concurrent-thread twin with injected yields",
          "Runtime monitoring: random sequences of 3-12 queries on one WMM object (constructor, explicit dates on and off the 0.1-year grid in all three epochs, date=None, both frames, special places) are compared answer by answer with the pure function f(date, place, frame) computed by the independent synthesis; constructor vs method for the same float / datetime.date; H, F, I, D, GV recomputed from the reported X, Y, Z; +180 vs -180; poles; equator and prime meridian through both entry points.",
          "NumPy; vt/ref/wmm.py; date=None means the date the object already holds", "5/C15"),
  "C16": ("closed-form identity monitor (defining identities, Pizzetti, Somigliana end values, symmetry, monotone in height, rotating-sphere limit)",
@@ -61,7 +61,7 @@ T = {
  "C17": ("round-trip and isometry monitors on the frame transformations (geodetic/ECEF/ENU/AER/DCA/NED, LLF matrices)",
          "Runtime monitoring: geodetic points stratified over the equator and its 1e-12..1e-5 deg neighbourhood, both poles and their neighbourhood, longitudes 0/+-90/+-180 and heights -10..1000 km are converted geodetic->ECEF (vs an independent closed form)->geodetic and back; random local origins, offsets to 1e6 m and angles over +-360 deg exercise ECEF<->ENU (identity, isometry, origin->0), ENU<->AER (degrees and radians), ENU<->DCA, NED<->ENU (vector and rows) and the LLF rotation matrices (transpose, orthogonal, det +1).",
          "NumPy; latitude tolerance 1e-7 deg / height 1e-4 m as allowed by the documented 1e-8 rad stopping rule; longitude at the poles compared through the ECEF point", "5/C17"),
- "C19": ("argument-bytes monitor + repeatability monitor over a registry of ~165 public call specifications, write-protect re-run as localiser",
+ "C19": ("argument-bytes monitor + repeatability monitor over a registry of ~370 public call specifications (seven argument forms), same-object and changed-in-place twins, result-buffer overwrite, keyword-call twin, concurrent-thread twin with injected yields, write-protect re-run as localiser",
          "Runtime monitoring: every free function of orientation/quaternion/frames/mathfuncs/metrics, every class constructor with its array-valued keywords (q0, P, b0, w0, weights, magnetic_ref, mag_ref, v1, v2, noises), every update/estimate method and Sensors(quaternions=) is called with non-normalised / degree-valued arguments as fresh arrays, as strided views of larger buffers and with one array aliased to two parameters; argument (and buffer) bytes are compared before/after, the call is repeated on the same objects and on pristine copies in the same layout, and a mutation is re-run write-protected to report the source line.",
          "NumPy; only documented array parameters; explicitly in-place operations are exempt; random functions re-seeded", "5/C19"),
  "C20": ("reference-model monitor (ground truth -> expected sensor rows), gyro re-integration history check, chi-square noise-level monitor",
